@@ -333,6 +333,19 @@ def run(ctx: Ctx):
     ctx.step(_need, "C17-O7", "R1 STATUS-GUARD", bnp, "a node is skipped only when its bound cannot beat the incumbent; an integral node LP replaces the incumbent only when it is strictly better", ["if node.bound >= best_obj - eps:\n            continue", "if lp_obj == float('inf') or lp_obj >= best_obj - eps:\n            continue", "if obj < best_obj - eps:\n                best_solution = candidate\n                best_obj = obj"])
     nlp_ = ctx.func("bp", "_solve_node_lp")
     ctx.step(_need, "C17-O7", "R16 PAIRED-EFFECTS", nlp_, "a priced column joins the column list and the column set together, and the master is solved again before the node's value is reported", ["columns.append(new_col)\n        column_set.add(new_col)", "x_vals, duals, lp_obj = _solve_bounded_master_lp(columns, demands, col_bounds, eps)\n    return (x_vals, lp_obj, cg_iters, converged)"])
+    _need(ctx, "C17-O7", "R1 STATUS-GUARD", bnp, "root of the search: an infeasible root LP is the only INFEASIBLE, an integral root LP is returned at once, otherwise the root is the first open node and the rounded root point the first incumbent", ["if lp_obj == float('inf'):\n        return Result(None, float('inf'), 0, total_cg_iters, Status.INFEASIBLE)", "frac_idx, frac_val = _most_fractional(x_vals, eps)\n    if frac_idx is None:\n        solution = _build_solution(x_vals, columns, eps)", "rounded = _round_solution(x_vals, columns, demands, eps)\n    if rounded is not None:\n        best_solution, best_obj = rounded", "heappush(tree, (lp_obj, counter, _BPNode(lp_obj, (), 0)))\n    counter += 1"], "without the root in the tree the loop never runs and the rounded point is labelled OPTIMAL")
+    sbp = ctx.func("bp", "solve_bp")
+    _need(ctx, "C17-O7", "R14 GATE", sbp, "solve_bp: the empty plan is returned only when there is no demand; exactly one of the two modes is chosen from the arguments given", ["if m == 0:\n        return Result({}, 0.0, 0, 0, Status.OPTIMAL)", "if all((d == 0 for d in demands)):\n        return Result({}, 0.0, 0, 0, Status.OPTIMAL)", "cutting_stock = roll_width is not None and piece_sizes is not None\n    custom = pricing_fn is not None", "if cutting_stock and custom:\n        raise ValueError", "if not cutting_stock and (not custom):\n        raise ValueError", "if cutting_stock:"])
+    for mod_, fn_ in (("bp", "_solve_bp_custom"), ("cg", "_solve_custom")):
+        cf = ctx.func(mod_, fn_)
+        _need(ctx, "C17-O3", "R5 PAIRING", cf, "custom mode: the column list holds every initial column once (a plan is a dict keyed by column), and the column set mirrors the list", ["columns: list[tuple[int, ...]] = list(dict.fromkeys((tuple(c) for c in initial_columns)))\n    column_set: set[tuple[int, ...]] = set(columns)"], "a column listed twice becomes two LP variables whose counts overwrite each other in the plan: rolls are lost from the plan and from the objective, and a plan that misses a demand is labelled OPTIMAL")
+    bml = ctx.func("bp", "_solve_bounded_master_lp")
+    _need(ctx, "C17-O7", "R18 table", bml, "bounded master LP, demand rows: sum_j a_ij x_j - s_i + art_i = d_i", ["for i in range(m):\n        for j, col in enumerate(columns):\n            tab[i][j] = float(col[i])\n        tab[i][n + i] = -1.0\n        tab[i][n + n_surplus + n_slack + n_surplus_bounds + i] = 1.0\n        tab[i][-1] = float(demands[i])"], "a node LP that misses part of a demand row is a relaxation of the wrong problem: its value is not a lower bound, and a plan is labelled OPTIMAL against it")
+    _need(ctx, "C17-O7", "R18 table", bml, "bounded master LP, branching rows: x_idx - s + art = lo for a positive lower bound, x_idx + slack = hi for a finite upper bound, one row and one auxiliary column each", ["if lo > eps:\n            tab[row_idx][idx] = 1.0\n            tab[row_idx][n + n_surplus + n_slack + surplus_idx] = -1.0\n            tab[row_idx][n + n_surplus + n_slack + n_surplus_bounds + art_idx] = 1.0\n            tab[row_idx][-1] = lo\n            lower_bound_rows[idx] = row_idx\n            row_idx += 1\n            art_idx += 1\n            surplus_idx += 1", "if hi < float('inf'):\n            tab[row_idx][idx] = 1.0\n            tab[row_idx][n + n_surplus + slack_idx] = 1.0\n            tab[row_idx][-1] = hi\n            row_idx += 1\n            slack_idx += 1", "n_lower = sum((1 for idx in col_bounds if col_bounds[idx][0] > eps))", "n_upper = sum((1 for idx in col_bounds if col_bounds[idx][1] < float('inf')))", "n_vars = n + n_surplus + n_slack + n_surplus_bounds + n_artificial\n    n_rows = m + n_lower + n_upper"], "a branching bound that does not reach the LP leaves both children equal to their parent: the search loops on the same fractional point or prunes on a bound that was never enforced")
+    _need(ctx, "C17-O7", "R16 PAIRED-EFFECTS", bml, "bounded master LP, phase 1: the objective row is minus the sum of the rows that hold an artificial, with the artificial columns cleared; a positive artificial sum after phase 1 means the node is infeasible", ["for r in range(n_rows):\n            if abs(tab[r][art_col] - 1.0) < eps:\n                for j in range(n_vars + 1):\n                    tab[-1][j] -= tab[r][j]\n                tab[-1][art_col] = 0.0\n                break", "if tab[-1][-1] < -eps:\n        return ([0.0] * n, [0.0] * m, float('inf'))"])
+    _need(ctx, "C17-O7", "R16 PAIRED-EFFECTS", bml, "bounded master LP, phase 2: cost 1 on every pattern column, priced out against the basis; the point is read from the basic pattern columns, the duals from the demand surplus columns, the value from the objective cell", ["for j in range(n_vars + 1):\n        tab[-1][j] = 0.0\n    for j in range(n):\n        tab[-1][j] = 1.0", "for i, b in enumerate(basis):\n        cost = 1.0 if b < n else 0.0\n        if abs(cost) > eps:\n            for j in range(n_vars + 1):\n                tab[-1][j] -= cost * tab[i][j]", "for i, b in enumerate(basis):\n        if b < n:\n            x_vals[b] = max(0.0, tab[i][-1])", "duals = [tab[-1][n + i] for i in range(m)]\n    objective = -tab[-1][-1]", "return (x_vals, duals, objective)"])
+    bsol = ctx.func("bp", "_build_solution")
+    _need(ctx, "C17-O7", "R5 PAIRING", bsol, "a plan holds exactly the patterns with a positive rounded count", ["if x > eps:\n            count = int(round(x))\n            if count > 0:\n                solution[columns[i]] = count", "return solution"])
     generic_sweeps(ctx)
 
 
@@ -401,6 +414,11 @@ def _v_root_integrality_gap_tol(tree):
     g = M.find_func(tree, "_branch_and_price")
     if not M.replace_expr(g, lambda e: M.src_is(e, "_most_fractional(x_vals, eps)"), M.expr("_most_fractional(x_vals, gap_tol)"), count=1):
         raise M.Skip("root integrality test not found")
+
+
+def _v_duplicate_initial_columns(tree):
+    g = M.find_func(tree, "_solve_bp_custom")
+    M.replace_expr(g, lambda e: M.src_is(e, "list(dict.fromkeys((tuple(c) for c in initial_columns)))"), M.expr("[tuple(c) for c in initial_columns]"))
 
 
 def _v_no_drive_out(tree):
@@ -472,6 +490,7 @@ def _t_reformat(tree):
 
 
 VARIANTS = [
+    M.Variant("custom mode keeps duplicate initial columns (original defect)", BP, _v_duplicate_initial_columns, "C17-O3"),
     M.Variant("pricing DP skips an item when another of the same size is worth at least as much (seed C17-G)", PRI, _v_pricing_dominance_skip, "C17-O7"),
     M.Variant("root integrality test of branch-and-price uses gap_tol instead of eps (seed C17-H)", BP, _v_root_integrality_gap_tol, "C17-G8"),
     M.Variant("cg OPTIMAL without the convergence flag (original defect)", CG, _v_cg_no_flag, "C17-O2"),
